@@ -20,7 +20,7 @@ ID = "C20"
 LEVEL = "exploration"
 RULE = (
     "case = generated configuration file with 1..4 servers: command = a per-case copy of a witness MCP server script (absolute path, possibly in a directory whose name has a space / non-ASCII; or a bare name found on the configured PATH while a same-named decoy sits on the host's PATH), "
-    "args with spaces, quotes, backslashes, Unicode, empty strings, URL-/comment-like text (//, /* */, #); env absent / {} / values with spaces, '=', Unicode; the host's own HOME/TERM/USER/LOGNAME/SHELL set, unset or function-like differently before each entry point; timeout absent / int / float / numeric string; extra keys at every level; "
+    "args with spaces, quotes, backslashes, Unicode, empty strings, URL-/comment-like text (//, /* */, #); env absent / {} / values with spaces, '=', Unicode; the host's own HOME/TERM/USER/LOGNAME/SHELL set, unset or function-like differently before each entry point; the file rewritten (in place or deleted and recreated) between entry points; timeout absent / int / float / numeric string; extra keys at every level; "
     "run through three entry points: load_config -> stdio_client -> send_initialize; __main__.test_server; run_command with a recording command; plus malformed classes (missing file, invalid JSON: "
     "truncated / trailing comma / empty, unknown server name); oracle: the witness child records argv, environ and every received line: argv == configured args, environment == what a control launch "
     "with the configured environment, or with the documented default computed independently of the library from the host's variables at that moment, shows, it saw initialize then notifications/initialized, timeout is float or None, test_server is True, run_command hands the command one "
@@ -29,7 +29,7 @@ RULE = (
 )
 ASSUMPTIONS = [
     "real child processes; scratch directories are created per case and removed",
-    "environment variable names are restricted to VP_[A-Z0-9_]* and values contain no NUL (the OS forbids it)",
+    "environment variable names are VP_[A-Z0-9_]* or a few realistic ones (tokens, keys, passwords, LANG, TZ); values contain no NUL (the OS forbids it)",
     "run_command clears the screen through os.system; the worker's stdout is redirected to /dev/null while it runs",
 ]
 EXHAUSTIVE = {"quick": False, "thorough": False}
@@ -353,6 +353,24 @@ def check(case: Dict[str, Any]) -> Outcome:
                 break
 
         restore.__exit__(None, None, None)
+        if case.get("rewrite"):
+            # the user edits the configuration while the host keeps running: same file, new content
+            for s in servers:
+                s_new = dict(s, args=list(s.get("args", [])) + [f"--edited-{case['rewrite']}"])
+                servers[servers.index(s)] = s_new
+                cfg["mcpServers"][s["name"]]["args"] = s_new["args"]
+            new_text = json.dumps(cfg, ensure_ascii=case.get("ensure_ascii", True))
+            if case["rewrite"] == "in-place":
+                with open(path, "r+", encoding="utf-8") as fh:
+                    fh.seek(0)
+                    fh.write(new_text)
+                    fh.truncate()
+            else:  # delete + create (the new file may get the old inode number)
+                os.remove(path)
+                with open(path, "w", encoding="utf-8") as fh:
+                    fh.write(new_text)
+            control_cache.clear()
+            out.classes = out.classes + ("config-rewritten-between-entry-points",)
         # ------------------------------------------------------------ entry point 2
         import chuk_mcp.__main__ as M
 
@@ -420,7 +438,8 @@ _arg = st.one_of(
                      "sqlite:///data/app.db", "//host/share", "/srv//data", "a // b", "http://x/y", "/* c */", "# hash", "a,}", "{\"k\": 1}"]),
     st.text(alphabet=st.characters(blacklist_characters="\x00", blacklist_categories=("Cs",)), max_size=8),
 )
-_envname = st.from_regex(r"VP_[A-Z0-9_]{0,6}", fullmatch=True)
+_envname = st.one_of(st.from_regex(r"VP_[A-Z0-9_]{0,6}", fullmatch=True),
+                     st.sampled_from(["VP_API_KEY", "VP_TOKEN", "GITHUB_TOKEN", "VP_SECRET", "DB_PASSWORD", "AWS_SECRET_ACCESS_KEY", "VP_CREDENTIALS", "VP_PASSWD", "OPENAI_API_KEY", "VP_DEBUG", "LANG", "TZ"]))
 _envval = st.one_of(st.sampled_from(["", "a b", "k=v", "é=ü", "x\ty", "\U0001F600", "1", "file:///tmp/x", "//share", "a//b", "/* x */"]), st.text(alphabet=st.characters(blacklist_characters="\x00", blacklist_categories=("Cs",)), max_size=8))
 _extra = st.dictionaries(st.sampled_from(["description", "disabled", "cwd_hint", "x-é"]), st.one_of(st.booleans(), st.text(max_size=5), st.none(), st.just({"k": [1]})), max_size=2)
 
@@ -465,6 +484,8 @@ def cases(draw):
         hv = st.dictionaries(st.sampled_from(["HOME", "TERM", "USER", "LOGNAME", "SHELL"]),
                              st.sampled_from(["/tmp/vp home \u00e9", "/nonexistent", "dumb", "vt100", "vp-user", "\u00fc", "/bin/sh", None, "() { :; }; echo x"]), max_size=3)
         case["host_env"] = [draw(hv), draw(hv), draw(hv)]
+    if draw(st.integers(0, 3)) == 0:
+        case["rewrite"] = draw(st.sampled_from(["in-place", "recreate"]))
     m = draw(st.sampled_from([None] * 8 + ["missing_file", "truncated", "trailing_comma", "empty", "unknown_server"]))
     if m:
         case["malformed"] = m
